@@ -8,7 +8,7 @@
    and the same for s_rel / CSV.  The induction follows the satisfier (concatenate_rev, minimum,
    thresh) on one side and the script encoding on the other; intermediate states come from Theorem A
    instantiated at the assets restricted to each sub-result's own locks (LockNeedTable.v). *)
-From Verif Require Import Exec ExecTrace Ser Ast Types TypeCheck SatSpec Sat ExecLemmas ExecTraceLemmas ScriptNumProofs TheoremA SatProofs PlanProofs.
+From Verif Require Import Exec ExecTrace Ser Ast Types TypeCheck SatSpec Sat ExecLemmas ExecTraceLemmas Spec TypesSpec ScriptNumProofs TheoremA SatProofs PlanProofs.
 From Verif Require Import LockNeedExec LockNeedTable LockNeedSuffice.
 From Coq Require Import Lia.
 
@@ -193,6 +193,9 @@ Proof.
   destruct m; try discriminate; intros _; cbn [sat_dissat]; try (split; apply lkP_none);
   unfold sd_multi, sd_multi_a; cbv zeta; destruct (Nat.ltb _ _); split; apply lkP_none.
 Qed.
+
+Lemma if_both {X} (P : X -> Prop) (c : bool) a b : P a -> P b -> P (if c then a else b).
+Proof. destruct c; auto. Qed.
 
 Definition instk (b : base) (c : bytes) (w rest : stack) : stack :=
   match b with BW => c :: w ++ rest | _ => w ++ rest end.
@@ -659,5 +662,224 @@ Section Trace.
     - pose proof (IHas la ba Ea Fa Ma c (rev bb ++ rest) al) as Hr. rewrite Hba in Hr. exact Hr.
     - apply (tr_ok_if_last e _ true (enc ke c0) (Some (enc ke b)) [1%N] (rev bb ++ rest) al true (if_cond_one e)). cbn [xorb].
       pose proof (IHbs lb bb Eb Fb Mb c rest al) as Hr. rewrite Hbb, (Hin _ Hbt) in Hr. exact Hr.
+  Qed.
+
+  (* ---------- thresh ---------- *)
+  (* a child together with its type and the side (dissatisfaction / satisfaction) the satisfier took *)
+  Definition tchild := (ms * ty * bool)%type.
+  Definition cres (c : tchild) : satn := let '(x, _, dis) := c in (if dis then fst else snd) (SD x).
+  Definition cms (c : tchild) : ms := fst (fst c).
+  Definition cok (b : base) (c : tchild) : Prop :=
+    let '(x, tx, dis) := c in
+    type_of x = ROk tx /\ wf e ke x /\ no_multi x /\ c_base (t_corr tx) = b /\ c_unit (t_corr tx) = true
+    /\ runs_ok x tx (cres c) /\ rel_small (cres c).
+
+  Lemma rel_small_fold Ls : Forall rel_small Ls -> forall acc, rel_small acc -> rel_small (fold_left concatenate_rev Ls acc).
+  Proof.
+    induction 1 as [|x r Hx Hr IH]; intros acc Ha; cbn [fold_left]; [exact Ha|]. apply IH, rel_small_concat; assumption.
+  Qed.
+
+  Lemma W_step x tx dis : cok BW (x, tx, dis) ->
+    forall l bs, s_stack (cres (x, tx, dis)) = WStack l -> fill_all f l = Some bs ->
+    lock_met e (s_abs (cres (x, tx, dis))) (s_rel (cres (x, tx, dis))) ->
+    forall s rest al, (0 <= s)%Z -> (s + 1 < 2147483648)%Z ->
+    exec e (enc ke x ++ [IOp OP_ADD]) (mkSt (num_encode s :: rev bs ++ rest) al)
+    = Ok (mkSt (num_encode (s + (if dis then 0 else 1)) :: rest) al).
+  Proof.
+    intros [Hx [Hwx [Hnx [Hb [Hu _]]]]] l bs Hs Hf Hm s rest al Hs0 Hs1. cbn [cres] in *.
+    destruct (child_facts dis x _ Hx Hwx Hnx l bs Hs Hf Hm) as [Hin [Hg _]]. unfold good in Hg. rewrite Hb, Hu in Hg.
+    rewrite exec_app. destruct dis.
+    - pose proof (proj2 Hg _ (num_encode s) rest al Hin) as Hrv.
+      destruct Hrv as [Hrv|Hrv]; rewrite Hrv; cbn [bind exec exec_instr exec_op stk alt];
+      rewrite (num_roundtrip 4 s) by lia; rewrite num_operand_empty; cbn [bind]; rewrite ?Z.add_0_r, ?Z.add_0_l; reflexivity.
+    - destruct (proj1 Hg _ (num_encode s) rest al Hin) as [v [Hrv Hv]]. rewrite (goodval_unit v Hv) in Hrv.
+      destruct Hrv as [Hrv|Hrv]; rewrite Hrv; cbn [bind exec exec_instr exec_op stk alt];
+      rewrite (num_roundtrip 4 s) by lia; rewrite (num_operand_one 4) by lia; cbn [bind]; rewrite ?(Z.add_comm 1 s); reflexivity.
+  Qed.
+
+  Lemma tail_tr (Tr : list tchild) : Forall (cok BW) Tr ->
+    forall acc l, s_stack (fold_left concatenate_rev (map cres Tr) acc) = WStack l ->
+    exists lacc lT, s_stack acc = WStack lacc /\ l = lT ++ lacc /\
+      forall tacc bT s rest al sfx,
+        tr_ok acc tacc ->
+        lock_met e (s_abs (fold_left concatenate_rev (map cres Tr) acc)) (s_rel (fold_left concatenate_rev (map cres Tr) acc)) ->
+        rel_small (fold_left concatenate_rev (map cres Tr) acc) ->
+        fill_all f lT = Some bT -> (0 <= s)%Z -> (s + Z.of_nat (length Tr) < 2147483648)%Z -> script_lockfree sfx = true ->
+        tr_ok (fold_left concatenate_rev (map cres Tr) acc)
+              (tacc ++ tr_script e (enc_tail ke (map cms Tr) ++ sfx) (mkSt (num_encode s :: rev bT ++ rest) al)).
+  Proof.
+    induction 1 as [|c Tr' Hc HTr IH]; intros acc l Hs; cbn [map fold_left] in *.
+    - exists l, []. split; [exact Hs|]. split; [reflexivity|].
+      intros tacc bT s rest al sfx Hacc _ _ Hf _ _ Hl. cbn [enc_tail app].
+      apply tr_ok_nolock_r; [exact Hacc | apply lockfree_no_lock_evs, Hl].
+    - destruct (IH _ _ Hs) as [lacc' [lT' [Ea' [-> H']]]].
+      pose proof Ea' as Ea''. apply concat_stack in Ea''. destruct Ea'' as [lacc [lc [Ea [Ec ->]]]].
+      exists lacc, (lT' ++ lc). split; [exact Ea|]. split; [rewrite app_assoc; reflexivity|].
+      intros tacc bT s rest al sfx Hacc Hm Hsm Hf Hs0 Hs1 Hl.
+      apply fill_all_app in Hf. destruct Hf as [bT' [bc [FT [Fc ->]]]].
+      destruct c as [[x tx] dis].
+      (* the environment meets this child's locks *)
+      destruct (fold_lsub _ _ _ Hs) as [Lacc' _].
+      destruct (concat_lsub acc (cres (x, tx, dis)) _ Ea') as [_ Lc].
+      pose proof (lock_met_lsub _ _ (lsub_trans _ _ _ Lc Lacc') Hsm Hm) as Mc.
+      cbn [length] in Hs1.
+      pose proof (W_step x tx dis Hc lc bc Ec Fc Mc s (rev bT' ++ rest) al Hs0 ltac:(lia)) as Hex.
+      cbn [cms fst enc_tail]. rewrite rev_app_distr.
+      replace ((enc ke x ++ [IOp OP_ADD] ++ enc_tail ke (map cms Tr')) ++ sfx)
+        with ((enc ke x ++ [IOp OP_ADD]) ++ (enc_tail ke (map cms Tr') ++ sfx)) by (rewrite <- !app_assoc; reflexivity).
+      rewrite <- (app_assoc (rev bc) (rev bT') rest). rewrite tr_script_app, Hex, app_assoc.
+      apply H'; try assumption; try lia.
+      + apply (tr_ok_concat_lf e acc (cres (x, tx, dis)) _ tacc (enc ke x) [IOp OP_ADD] _ Ea' eq_refl Hacc).
+        destruct Hc as [_ [_ [_ [Hb [_ [Hrun _]]]]]].
+        pose proof (Hrun lc bc Ec Fc Mc (num_encode s) (rev bT' ++ rest) al) as Hr. rewrite Hb in Hr. exact Hr.
+      + destruct dis; lia.
+      + destruct dis; lia.
+  Qed.
+
+  (* the whole threshold script for a list of (child, side) *)
+  Lemma thresh_runs (k : N) x0 t0 d0 (Tr : list tchild) t :
+    cok BB (x0, t0, d0) -> Forall (cok BW) Tr -> (S (length Tr) < 1000)%nat -> c_base (t_corr t) = BB ->
+    runs_ok (MThresh k (x0 :: map cms Tr)) t (flatten_rev (map cres ((x0, t0, d0) :: Tr))).
+  Proof.
+    intros H0 HT Hn Hbt l bs Hs Hf Hm c rest al. unfold flatten_rev in *. cbn [map fold_left] in *.
+    assert (Hsm : rel_small (fold_left concatenate_rev (map cres Tr) (concatenate_rev TRIVIAL (cres (x0, t0, d0))))).
+    { apply rel_small_fold.
+      - clear -HT. induction HT as [|c' r Hc Hr IH]; cbn [map]; constructor; [|exact IH].
+        destruct c' as [[x' tx'] dis']. destruct Hc as [_ [_ [_ [_ [_ [_ Hc]]]]]]. exact Hc.
+      - apply rel_small_concat; [intros R HR; discriminate|]. destruct H0 as [_ [_ [_ [_ [_ [_ Hc]]]]]]. exact Hc. }
+    destruct (tail_tr Tr HT _ _ Hs) as [lacc [lT [Ea [-> H']]]].
+    pose proof Ea as Ea'. apply concat_stack in Ea'. destruct Ea' as [lt [l0 [Et [E0 ->]]]].
+    cbn in Et. inversion Et; subst lt. rewrite app_nil_r in *.
+    apply fill_all_app in Hf. destruct Hf as [bT [b0 [FT [F0 ->]]]].
+    destruct (fold_lsub _ _ _ Hs) as [Lacc _].
+    destruct (concat_lsub TRIVIAL (cres (x0, t0, d0)) _ Ea) as [_ L0].
+    pose proof (lock_met_lsub _ _ (lsub_trans _ _ _ L0 Lacc) Hsm Hm) as M0.
+    destruct H0 as [Hx [Hwx [Hnx [Hb [Hu [Hrun _]]]]]].
+    pose proof (x_exit d0 x0 t0 Hx Hwx Hnx Hb Hu l0 b0 E0 F0 M0 (rev bT ++ rest) al) as Hex.
+    rewrite Hbt. cbn [instk]. rewrite (enc_thresh ke k x0 (map cms Tr)), rev_app_distr, <- app_assoc.
+    assert (Hex' : exec e (enc ke x0) (mkSt (rev b0 ++ rev bT ++ rest) al)
+                   = Ok (mkSt (num_encode (if d0 then 0 else 1) :: rev bT ++ rest) al)) by (destruct d0; exact Hex).
+    rewrite tr_script_app, Hex'.
+    apply H'; try assumption.
+    - rewrite <- (app_nil_l (tr_script e (enc ke x0) _)).
+      apply (tr_ok_concat TRIVIAL (cres (x0, t0, d0)) _ [] _ Ea); [split; reflexivity|].
+      pose proof (Hrun l0 b0 E0 F0 M0 c (rev bT ++ rest) al) as Hr. rewrite Hb in Hr. exact Hr.
+    - destruct d0; lia.
+    - destruct d0; lia.
+    - cbn. rewrite push_int_lockfree. reflexivity.
+  Qed.
+
+  (* the satisfier's three selections as lists of (child, side) *)
+  Fixpoint mkT (ch : nat -> bool) (xs : list ms) (ts : list ty) (i : nat) : list tchild :=
+    match xs, ts with
+    | x :: xr, t :: tr => (x, t, negb (ch i)) :: mkT ch xr tr (S i)
+    | _, _ => []
+    end.
+  Lemma mkT_cms ch xs : forall ts i, length ts = length xs -> map cms (mkT ch xs ts i) = xs.
+  Proof.
+    induction xs as [|x r IH]; intros [|t tr] i Hl; cbn in *; try discriminate; [reflexivity|]. f_equal. apply IH. lia.
+  Qed.
+  Lemma mkT_length ch xs : forall ts i, length ts = length xs -> length (mkT ch xs ts i) = length xs.
+  Proof.
+    induction xs as [|x r IH]; intros [|t tr] i Hl; cbn in *; try discriminate; [reflexivity|]. f_equal. apply IH. lia.
+  Qed.
+  Lemma mkT_const (b : bool) xs : forall ts i, length ts = length xs ->
+    map (if b then @snd satn satn else @fst satn satn) (map (sat_dissat ke se mall rhs) xs) = map cres (mkT (fun _ => b) xs ts i).
+  Proof.
+    induction xs as [|x r IH]; intros [|t tr] i Hl; cbn [map mkT length] in *; try discriminate; [reflexivity|].
+    f_equal; [destruct b; reflexivity | apply IH; lia].
+  Qed.
+  Lemma mkT_swap chosen xs : forall pre ts, length ts = length xs ->
+    map (fun p => if existsb (Nat.eqb (fst p)) chosen then nth_sat (map snd (map (sat_dissat ke se mall rhs) (pre ++ xs))) (fst p) else snd p)
+        (combine (seq (length pre) (length (map fst (map (sat_dissat ke se mall rhs) xs)))) (map fst (map (sat_dissat ke se mall rhs) xs)))
+    = map cres (mkT (fun i => existsb (Nat.eqb i) chosen) xs ts (length pre)).
+  Proof.
+    induction xs as [|x r IH]; intros pre [|t tr] Hl; cbn [map mkT length seq combine fst snd] in *; try discriminate; [reflexivity|].
+    f_equal.
+    - destruct (existsb (Nat.eqb (length pre)) chosen); cbn [negb cres]; [|reflexivity].
+      unfold nth_sat. rewrite !map_app, app_nth2 by (rewrite !map_length; lia). rewrite !map_length, Nat.sub_diag. reflexivity.
+    - specialize (IH (pre ++ [x]) tr ltac:(lia)). rewrite app_length in IH. cbn [length] in IH.
+      rewrite Nat.add_1_r, <- app_assoc in IH. exact IH.
+  Qed.
+
+  Lemma mkT_cok ch xs ts : Forall tstmt xs -> Forall2 (fun x t => type_of x = ROk t) xs ts ->
+    (fix go (l : list ms) : Prop := match l with [] => True | x :: r => wf e ke x /\ go r end) xs ->
+    (fix go (l : list ms) : Prop := match l with [] => True | x :: r => no_multi x /\ go r end) xs ->
+    forall b, Forall (fun t => c_base (t_corr t) = b /\ c_unit (t_corr t) = true) ts ->
+    forall i, Forall (cok b) (mkT ch xs ts i).
+  Proof.
+    intros HI HT. revert HI. induction HT as [|x t xr tr Hx Hr IH]; intros HI Hw Hn b Hb i; cbn [mkT]; [constructor|].
+    inversion HI as [|? ? Ix Ir]; subst. inversion Hb as [|? ? Bh Br]; subst. destruct Bh as [B1 B2]. destruct Hw as [W1 W2]. destruct Hn as [N1 N2].
+    constructor; [|apply IH; assumption].
+    destruct (Ix t Hx W1 N1) as [Id Is]. destruct (bounded_results x W1) as [Bd Bs].
+    cbn [cok cres]. refine (conj Hx (conj W1 (conj N1 (conj B1 (conj B2 _))))).
+    destruct (negb (ch i)); split; assumption.
+  Qed.
+
+  Lemma t_thresh k xs : Forall tstmt xs -> tstmt (MThresh k xs).
+  Proof.
+    intros IH t Ht Hwf Hnm. cbn [type_of] in Ht. fold (tys_of xs) in Ht.
+    apply rbind_ok in Ht. destruct Ht as [ts [Hts Ht]]. apply tys_of_ok in Hts.
+    cbn [wf no_multi] in Hwf, Hnm. destruct Hwf as [Hk [Hn Hwf]].
+    unfold t_threshold in Ht. destruct (c_threshold k (map t_corr ts)) as [cc|] eqn:Ec; [|discriminate].
+    inversion Ht; subst; clear Ht.
+    destruct xs as [|x0 r]; [cbn in Hk; lia|]. inversion Hts as [|x0' t0 r' ts0 Ht0 Hrest]; subst.
+    unfold c_threshold in Ec. cbn [map] in Ec. destruct (loop_first (t_corr t0) (map t_corr ts0)) as [Lt Lf].
+    destruct (child_ok true (t_corr t0) && forallb (child_ok false) (map t_corr ts0)) eqn:Eok.
+    2:{ destruct (Lf eq_refl) as [err He]. rewrite He in Ec. discriminate. }
+    rewrite (Lt eq_refl) in Ec. inversion Ec; subst; clear Ec.
+    apply andb_prop in Eok. destruct Eok as [Ok0 Okr].
+    assert (Hb0 : c_base (t_corr t0) = BB /\ c_unit (t_corr t0) = true).
+    { unfold child_ok in Ok0. destruct t0 as [[b0 i0 d0 u0] m0]. cbn [t_corr c_base c_unit c_dissat] in *.
+      destruct b0, u0, d0; try discriminate. auto. }
+    assert (HbW : Forall (fun t => c_base (t_corr t) = BW /\ c_unit (t_corr t) = true) ts0).
+    { clear -Okr. induction ts0 as [|t tr IHt]; [constructor|]. cbn [map forallb] in Okr. apply andb_prop in Okr. destruct Okr as [O1 O2].
+      constructor; [|apply IHt, O2]. unfold child_ok in O1. destruct t as [[b i d u] m]. cbn [t_corr c_base c_unit c_dissat] in *.
+      destruct b, u, d; try discriminate. auto. }
+    assert (Hlen : length ts0 = length r) by (clear -Hrest; induction Hrest; cbn; congruence).
+    inversion IH as [|? ? I0 Ir]; subst. destruct Hwf as [W0 Wr]. destruct Hnm as [N0 Nr].
+    (* every selection *)
+    match goal with |- runs_ok _ ?T _ /\ _ => set (tt := T) end.
+    assert (Hbt : c_base (t_corr tt) = BB) by reflexivity. clearbody tt.
+    assert (Hsel : forall ch, runs_ok (MThresh k (x0 :: r)) tt (flatten_rev (map cres (mkT ch (x0 :: r) (t0 :: ts0) 0)))).
+    { intros ch. cbn [mkT].
+      pose proof (mkT_cok ch [x0] [t0] (Forall_cons _ I0 (Forall_nil _)) (Forall2_cons _ _ Ht0 (Forall2_nil _)) (conj W0 I) (conj N0 I) BB
+                    (Forall_cons _ Hb0 (Forall_nil _)) 0%nat) as H0. cbn [mkT] in H0. inversion H0 as [|? ? H0' _]; subst.
+      pose proof (mkT_cok ch r ts0 Ir Hrest Wr Nr BW HbW 1%nat) as HT.
+      pose proof (thresh_runs k x0 t0 (negb (ch 0%nat)) (mkT ch r ts0 1) tt H0' HT
+                    ltac:(rewrite mkT_length by exact Hlen; cbn [length] in Hn; lia) Hbt) as Hr.
+      rewrite mkT_cms in Hr by exact Hlen. exact Hr. }
+    remember (x0 :: r) as xs eqn:Exs. cbn [sat_dissat]. rewrite ds_thresh. subst xs. split; cbn [fst snd].
+    - rewrite (mkT_const false (x0 :: r) (t0 :: ts0) 0%nat) by (cbn; congruence). apply Hsel.
+    - destruct (N.eqb k (N.of_nat (length (x0 :: r)))).
+      + rewrite (mkT_const true (x0 :: r) (t0 :: ts0) 0%nat) by (cbn; congruence). apply Hsel.
+      + apply (if_both (runs_ok (MThresh k (x0 :: r)) tt)).
+        * unfold thresh_mall, swap_in.
+          pose proof (fun ch => mkT_swap ch (x0 :: r) [] (t0 :: ts0) ltac:(cbn; congruence)) as E. cbn [app length] in E. rewrite E. apply Hsel.
+        * unfold thresh_nonmall. cbv zeta. destruct (is_imp _); [intros l bs Hs; cbn in Hs; discriminate|].
+          destruct (negb _ && negb _); [intros l bs Hs; cbn in Hs; discriminate|]. unfold swap_in.
+          pose proof (fun ch => mkT_swap ch (x0 :: r) [] (t0 :: ts0) ltac:(cbn; congruence)) as E. cbn [app length] in E. rewrite E. apply Hsel.
+  Qed.
+
+  Theorem trace_all : forall m, tstmt m.
+  Proof.
+    induction m using ms_ind'; try (apply t_leaf; reflexivity).
+    - apply t_after.
+    - apply t_older.
+    - apply t_alt; assumption.
+    - apply t_swap; assumption.
+    - apply t_check; assumption.
+    - apply t_dupif; assumption.
+    - apply t_verify; assumption.
+    - apply t_nonzero; assumption.
+    - apply t_zne; assumption.
+    - apply t_and_v; assumption.
+    - apply t_and_b; assumption.
+    - apply t_andor; assumption.
+    - apply t_or_b; assumption.
+    - apply t_or_d; assumption.
+    - apply t_or_c; assumption.
+    - apply t_or_i; assumption.
+    - apply t_thresh; assumption.
   Qed.
 End Trace.
